@@ -123,24 +123,27 @@ func (s *HAPeerServer) BulkSync(req *hapb.BulkSyncRequest, stream hapb.HAPeerSer
 			if oldest != 0 && newest != 0 {
 				sentFromBacklog = true
 				entries := backlog.Range(oldest, newest)
-				for i := 0; i < len(entries); i += pageSize {
+				// Replay the latest state of every session only: a bulk page carries
+				// bare checkpoints, so an older update must not be stored after a newer
+				// one and a released session must not be stored again.
+				sessions := latestLiveCheckpoints(entries)
+				lastSeq := newest
+				if n := len(entries); n > 0 && entries[n-1] != nil {
+					lastSeq = entries[n-1].Sequence
+				}
+				for i := 0; i == 0 || i < len(sessions); i += pageSize {
 					end := i + pageSize
-					if end > len(entries) {
-						end = len(entries)
-					}
-
-					page := make([]*hapb.SessionCheckpoint, 0, end-i)
-					for _, entry := range entries[i:end] {
-						if entry.Session != nil {
-							page = append(page, entry.Session)
-						}
+					if end > len(sessions) {
+						end = len(sessions)
 					}
 
 					resp := &hapb.BulkSyncResponse{
 						SrgName:  srgName,
-						Sessions: page,
-						Sequence: entries[end-1].Sequence,
-						LastPage: end >= len(entries),
+						Sessions: sessions[i:end],
+						LastPage: end >= len(sessions),
+					}
+					if resp.LastPage {
+						resp.Sequence = lastSeq
 					}
 					if err := stream.Send(resp); err != nil {
 						return err
@@ -157,6 +160,28 @@ func (s *HAPeerServer) BulkSync(req *hapb.BulkSyncRequest, stream hapb.HAPeerSer
 	}
 
 	return nil
+}
+
+// latestLiveCheckpoints returns, in backlog order, the checkpoint of the last
+// entry of every session, leaving out sessions whose last entry is a DELETE.
+func latestLiveCheckpoints(entries []*hapb.SyncSessionRequest) []*hapb.SessionCheckpoint {
+	last := make(map[string]int, len(entries))
+	for i, entry := range entries {
+		if entry != nil && entry.Session != nil {
+			last[reservationKey(entry.Session)] = i
+		}
+	}
+	out := make([]*hapb.SessionCheckpoint, 0, len(last))
+	for i, entry := range entries {
+		if entry == nil || entry.Session == nil || last[reservationKey(entry.Session)] != i {
+			continue
+		}
+		if entry.Action == hapb.SyncAction_SYNC_ACTION_DELETE {
+			continue
+		}
+		out = append(out, entry.Session)
+	}
+	return out
 }
 
 func (s *HAPeerServer) SyncCGNATMapping(ctx context.Context, req *hapb.SyncCGNATMappingRequest) (*hapb.SyncCGNATMappingResponse, error) {
